@@ -111,6 +111,8 @@ Say(lines) == obs' = [NoObs EXCEPT !.lines = lines] /\ Same
 (* Package log. *)
 SetLevel(g) == glevel' = g /\ obs' = NoObs /\ UNCHANGED <<hs, nhandle>>
 GetLevel == obs' = [NoObs EXCEPT !.ret = "level", !.n = glevel] /\ Same
+(* Writer(): "the output destination for the default logger" - what SetOutput was given. *)
+Writer == obs' = Ret("output") /\ Same
 
 Info(m)    == Say(InfoL("", Text(m)))
 Debug(m)   == Say(DebugL("", Text(m)))
@@ -197,6 +199,7 @@ HLog(h, l, m, ra) == /\ h \in Handlers /\ nhandle < MaxHandles
 Do(o) ==
     CASE o[1] = "setlevel" -> SetLevel(o[2])
       [] o[1] = "getlevel" -> GetLevel
+      [] o[1] = "writer"   -> Writer
       [] o[1] \in {"info", "print", "printf", "println"} -> Info(o[2])
       [] o[1] = "debug"    -> Debug(o[2])
       [] o[1] = "error"    -> Error(o[2])
@@ -214,7 +217,7 @@ Do(o) ==
       [] o[1] = "hlog"     -> HLog(o[2], o[3], o[4], o[5])
 
 LogOps ==
-    {<<"setlevel", g>> : g \in GLevels} \cup {<<"getlevel">>}
+    {<<"setlevel", g>> : g \in GLevels} \cup {<<"getlevel">>, <<"writer">>}
     \cup {<<t, m>> : t \in {"info", "print", "printf", "println", "debug", "error", "tracef", "panic", "panicf", "elapsed"},
                      m \in Msgs}
     \cup {<<"stdlog", p, lv, m>> : p \in LogPrefixes, lv \in 0..3, m \in Msgs}
@@ -237,7 +240,7 @@ GSpec == GInitial /\ [][GNext]_gvars
 (* Lemmas. *)
 GTypeOK == /\ glevel \in 0..3
            /\ \A h \in Handlers : hs[h].par \in 0..(h - 1)
-           /\ obs.ret \in {"none", "level", "panic", "recovered", "ok", "true", "false", "nil", "err"}
+           /\ obs.ret \in {"none", "level", "output", "panic", "recovered", "ok", "true", "false", "nil", "err"}
 
 (* OFF silences everything. *)
 OffIsSilent == glevel = 0 => obs.lines = <<>>
